@@ -27,12 +27,16 @@ fn main() {
     let mut rng = Rng::new(seed.wrapping_mul(0x2545F4914F6CDD1D) ^ fnv(&suite));
     let mut t = Trace::create(&out);
     let extra = String::new();
+    let log = std::sync::Arc::new(comp::NoteLog::default());
+    stretto::verif::install(Some(log.clone()));
+    let mut ex = comp::Exec::new(log);
     match suite.as_str() {
-        "row" => comp::suite_row(&mut rng, cases, &mut t),
-        "sketch" => comp::suite_sketch(&mut rng, cases, &mut t),
-        "bloom" => comp::suite_bloom(&mut rng, cases, &mut t),
-        "tlfu" => comp::suite_tlfu(&mut rng, cases, &mut t),
-        "policy" => comp::suite_policy(&mut rng, cases, &mut t),
+        "row" => comp::suite_row(&mut rng, cases, &mut t, &mut ex),
+        "sketch" => comp::suite_sketch(&mut rng, cases, &mut t, &mut ex),
+        "bloom" => comp::suite_bloom(&mut rng, cases, &mut t, &mut ex),
+        "tlfu" => comp::suite_tlfu(&mut rng, cases, &mut t, &mut ex),
+        "policy" => comp::suite_policy(&mut rng, cases, &mut t, &mut ex),
+        "replay" => comp::replay(arg(&args, "--in").expect("--in FILE"), &mut t, &mut ex),
         _ => {
             eprintln!("unknown suite {}", suite);
             std::process::exit(2);
